@@ -96,6 +96,13 @@ def run(ctx, rep):
                "acquire(...) must be non-blocking: a send re-entered from a finalizer while this thread holds the "
                "lock would otherwise wait for itself" if not K.nonblocking_acquire(c) else
                "acquire is called with blocking=False", ctx.loc(c), kind="site")
+    ctor = K.init_field_ctor(ctx, K.CONN, lock)
+    okl = isinstance(ctor, ast.Call) and (A.call_name(ctor) or "").split(".")[-1] == "Lock"
+    rep.ob("R12.5", "Connection.__init__: the send lock is a plain (non-reentrant) Lock", okl,
+           "self.%s = Lock()" % lock if okl else
+           "the send lock is `%s`: with a re-entrant lock a send started on the thread that is already writing (a proxy "
+           "finalizer running between two chunks) acquires it again and writes its packet into the middle of the outer one"
+           % (A.src(ctor) if ctor is not None else None), ctx.loc(ctor) if ctor is not None else f.loc, kind="site")
     # package-wide: nobody else takes the send lock, blocking or not
     others = []
     for fu, c in ctx.call_sites(".%s.acquire" % lock):
